@@ -1,24 +1,13 @@
-"""Per-property configuration of ./check."""
+"""Per-property configuration of ./check: loads props/Cxx.py (each defines CONFIG)."""
+import glob
+import importlib.util
+import os
 
-COMMON_TRUSTED = [
-    "tools/extract (go/ast) prints what /repo's source says into lean/VGen",
-    "correspondence check: Go harness (real code, -tags verif) vs compiled Lean driver on generated ops; reach bounded by the generators",
-]
-
-PROPS = {
-    "C01": {
-        "areas": ["json"],
-        "lean": ["VProps.C01"],
-        "sources": ["VProps/C01.lean", "VProofs/Order.lean", "VProofs/Sort.lean", "VModel/Json.lean"],
-        "theorems": [
-            "V.C01.canon_member_order_irrelevant", "V.C01.canon_keys_strictly_sorted", "V.C01.negzero_is_zero",
-            "V.C01.other_literals_kept", "V.C01.numOk_sound", "V.C01.enforced_rejects_leaf", "V.C01.enforced_versions",
-        ],
-        "rule": "type-directed JSON values (depth<=5, keys needing escapes, non-BMP, integer boundaries, fractions/exponents/-0) x "
-                "random presentations (whitespace, member order, escape spellings) + malformed stream; an op is non-trivial when "
-                "the text is not a bare scalar; distinct by op line",
-        "nontrivial": lambda op, impl: len(op) > 40,
-        "trusted": COMMON_TRUSTED + ["gjson.Valid / gjson parse modelled by VModel.Json.parse (validated by correspondence)"],
-        "assumptions": ["texts with duplicate keys, invalid UTF-8 or lone surrogates are outside C01's quantifier (compared impl vs model only)"],
-    },
-}
+PROPS = {}
+_here = os.path.dirname(os.path.abspath(__file__))
+for _p in sorted(glob.glob(os.path.join(_here, "props", "C*.py"))):
+    _name = os.path.basename(_p)[:-3]
+    _spec = importlib.util.spec_from_file_location("props_" + _name, _p)
+    _m = importlib.util.module_from_spec(_spec)
+    _spec.loader.exec_module(_m)
+    PROPS[_name] = _m.CONFIG
